@@ -232,6 +232,22 @@ def check_routes(run, bad):
                     bad.append(("routes", "%s, knots (%s, %s, %s) at r=%s: end potentials as built-in forms give %r, the same end potentials spelled as formulas give %r" % (
                         what, rd, rm, ra, x, a(x), vb), dict(params=[A, rho, C, rd, rm, ra])))
                     break
+            # ... and their offered derivatives are those of the same function: outside the knots the end potential's own slope
+            # and curvature (taken numerically, on the end potential, at THAT separation), between them the spline's
+            for what, a, b in (("exp spline zbl -> buck", g2, g3), ("buck4 spline", f4, f5)):
+                for name, tol in (("deriv", 1e-4), ("deriv2", 1e-2)):
+                    if not (hasattr(a, name) and hasattr(b, name)):
+                        continue
+                    run.evaluations += 1
+                    try:
+                        da, db = getattr(a, name)(x), getattr(b, name)(x)
+                    except Exception as e:
+                        bad.append(("derivative-raises", "%s, knots (%s, %s, %s): .%s(%s) raised %s: %s" % (what, rd, rm, ra, name, x, type(e).__name__, e), dict(params=[A, rho, C, rd, rm, ra])))
+                        break
+                    if abs(da - db) > tol * (1 + abs(da)) and x not in (rd, rm, ra):
+                        bad.append(("routes", "%s, knots (%s, %s, %s): .%s(%s) with the end potentials as built-in forms is %r, with the same end potentials spelled as formulas %r" % (
+                            what, rd, rm, ra, name, x, da, db), dict(params=[A, rho, C, rd, rm, ra])))
+                        break
             from atsim.potentials import plus, product
             mods = [("exp spline zbl -> sum(buck, constant), exclusive attach", SplinePotential(PFo.zbl(14, 8), plus(PFo.buck(A, rho, C), PFo.constant(0.5)), rd, ra), "T"),
                     ("exp spline zbl -> sum(buck, constant), inclusive attach", SplinePotential(PFo.zbl(14, 8), plus(PFo.buck(A, rho, C), PFo.constant(0.5)), rd, ra), "S"),
